@@ -1,4 +1,5 @@
 import Pms.Props.C10
+import Pms.Props.C10Mod
 
 #print axioms Pms.Boo2d.C10_atan2_form
 #print axioms Pms.Boo2d.C10_atan2_origin
@@ -18,3 +19,5 @@ import Pms.Props.C10
 #print axioms Pms.Boo2d.C10_time_corr_props
 #print axioms Pms.Boo2d.C10_spatial_corr_def
 #print axioms Pms.Boo2d.C10_spatial_corr_bins
+#print axioms Pms.ModShape.C10_module_shape
+#print axioms Pms.ModShape.C10_body_shape
